@@ -37,6 +37,15 @@ structure Good (W : Nat → Prop) (ctx : Scope) (st : St) (r : R) : Prop where
 def GoodRun (run : Run) : Prop :=
   ∀ ctx st, Own ctx st → Good (fun i => i = top ctx) ctx st (run ctx st)
 
+/-- a property of the remembered {default} of a switch is kept by `pickDefault` -/
+theorem pickDefault_all {P : Run → Prop} {values : List Expr} {body : Run} {dflt : Option Run} (hb : P body)
+    (hd : ∀ d, dflt = some d → P d) : ∀ d, pickDefault values body dflt = some d → P d := by
+  intro d h
+  unfold pickDefault at h
+  split at h
+  · simp only [Option.some.injEq] at h; rw [← h]; exact hb
+  · exact hd d h
+
 theorem Ext.refl (W : Nat → Prop) (st : St) : Ext W st st :=
   ⟨Nat.le_refl _, fun _ c h => ⟨c, h, rfl, fun _ => rfl⟩, rfl⟩
 
